@@ -858,11 +858,17 @@ def rule_stamps(ctx, facts, rule):
         bw = fn.calls_re(r"RawSpan::begin_with$", cleanup=False)
         ok = bool(bw) and all(_only_now(prov.of_operand(fn, fn.term(b)["args"][2])) for b in bw)
         ctx.check(ok, rule, fn.path, fn.span, "SpanQueue::%s stamps begin_instant with Instant::now()" % name, "", "begin argument is not Instant::now()", extra="begin-" + name)
-    fn = ctx.need_fn(facts, "fastrace::span::Span::new", rule)
-    if fn is not None:
-        bw = fn.calls_re(r"RawSpan::begin_with$", cleanup=False)
-        ok = bool(bw) and all(_only_now(prov.of_operand(fn, fn.term(b)["args"][2])) for b in bw)
-        ctx.check(ok, rule, fn.path, fn.span, "Span::new stamps begin_instant with Instant::now()", "", "begin argument is not Instant::now()", extra="begin-span")
+    # wherever a recording span is built, its RawSpan begins now
+    from .spanrules import span_builds
+    builds = span_builds(facts)
+    okb = bool(builds)
+    for g, b, f in builds:
+        src = prov.of_operand(g, f["raw_span"]) if "raw_span" in f else set()
+        bws = sorted({v[2] for o in src for v in o.via if v[0] == "call" and v[1].endswith("RawSpan::begin_with")})
+        bws = [x for x in bws if x < len(g.blocks) and g.blocks[x]["term"].get("callee", "").endswith("RawSpan::begin_with")]
+        okb = okb and bool(bws) and all(_only_now(prov.of_operand(g, g.term(x)["args"][2])) for x in bws)
+    ctx.check(okb, rule, "fastrace::span::SpanInner", "-", "a recording span's begin_instant is Instant::now() wherever the span is built", "%d build sites" % len(builds),
+              "a build site's RawSpan does not begin with Instant::now()", extra="begin-span")
 
 
 def rule_elapsed(ctx, facts, rule):
